@@ -214,6 +214,8 @@ def oracle_c05(s: Session2):
         plan = s.plans[r.sid]
         if plan.crash is None or s.records.get(r.sid) is None:
             continue
+        if not (s.records[r.sid].get("crashed") or s.records[r.sid].get("finished")):
+            continue      # the application is still waiting (for a request body the client never completes): it has not failed yet
         hs = sess.headers.get(r.sid)
         if plan.crash in ("before-start", "return-before-start"):
             st = int(dict(hs[0])[b":status"]) if hs else None
